@@ -10,24 +10,36 @@
 
 using vshim::thread;
 
-static int g_destroyed;
+static int g_destroyed;    // destructor calls on the ORIGINAL object
+// (real std::atomic, not the scheduler's: several threads construct / destroy clones, and the serialising scheduler is
+// invisible to TSan, so plain counters would be reported as a harness race)
+static ::std::atomic<int> g_constructed;  // all objects (the original and the clones unify() makes)
+static ::std::atomic<int> g_all_destroyed;
 
 struct Obj;
-static Obj* g_obj;
+static ::std::atomic<Obj*> g_obj;  // the original object while it lives (atomic: read by clone destructors on other threads)
 struct Obj : public tlx::ReferenceCounter {
     int payload = 7;
-    Obj() { g_obj = this; }
+    Obj() {
+        g_obj = this;
+        g_constructed++;
+    }
+    // clone made by unify(): a thread-private object (the copy starts with reference count 0, as ReferenceCounter defines)
+    Obj(const Obj& o) : tlx::ReferenceCounter(o), payload(o.payload) { g_constructed++; }
     ~Obj() {
         payload = -1;
-        g_destroyed++;
-        g_obj = nullptr;
+        g_all_destroyed++;
+        if (this == g_obj.load()) {
+            g_destroyed++;
+            g_obj = nullptr;
+        }
     }
 };
 // explicit-state mode: shared state = the reference count (while the object lives) and the destructor count;
 // a thread's handles are determined by its position in its straight-line script (distinct call sites)
 __attribute__((no_sanitize("thread"))) static uint64_t cp_state() {
-    uint64_t h = (uint64_t)g_destroyed * 1000003 + 17;
-    if (g_obj) h = h * 31 + g_obj->reference_count_.vs_peek();
+    uint64_t h = ((uint64_t)g_destroyed * 1000003 + (uint64_t)g_constructed.load() * 101 + (uint64_t)g_all_destroyed.load()) * 31 + 17;
+    if (Obj* o = g_obj.load()) h = h * 31 + o->reference_count_.vs_peek();
     return h * 0x9E3779B97F4A7C15ull;
 }
 typedef tlx::CountingPtr<Obj> P;
@@ -70,6 +82,14 @@ static void script(char s, P& mine, const P& common) {
         use(mine);
         mine.reset();
         break;
+    case 'G': {  // unify: clone the object if it is shared, keep it if this is the only handle; then use and copy the result
+        mine.unify();
+        use(mine);
+        if (!mine.unique()) vs_fail("unify-not-unique", "after unify() the handle is not the only owner of its object");
+        P c(mine);
+        use(c);
+        break;
+    }
     case 'F': {  // copy from a handle variable that nobody modifies
         P c(common);
         use(c);
@@ -83,6 +103,8 @@ static void script(char s, P& mine, const P& common) {
 
 static void body(const std::string& scripts, bool main_drops_late, bool with_common) {
     g_destroyed = 0;
+    g_constructed = 0;
+    g_all_destroyed = 0;
     g_obj = nullptr;
     {
         P root(new Obj());
@@ -109,13 +131,15 @@ static void body(const std::string& scripts, bool main_drops_late, bool with_com
             common.reset();
         }
     }
-    if (g_destroyed != 1) vs_fail(g_destroyed == 0 ? "not-destroyed" : "destroyed-twice", vh::fmt("destructor ran %d times", g_destroyed).c_str());
-    vs_observe(vh::fmt("destroyed=%d", g_destroyed).c_str());
+    if (g_destroyed != 1) vs_fail(g_destroyed == 0 ? "not-destroyed" : "destroyed-twice", vh::fmt("destructor of the shared object ran %d times", g_destroyed).c_str());
+    if (g_all_destroyed != g_constructed)
+        vs_fail(g_all_destroyed < g_constructed ? "not-destroyed" : "destroyed-twice", vh::fmt("%d objects constructed (incl. unify() clones), %d destroyed", g_constructed.load(), g_all_destroyed.load()).c_str());
+    vs_observe(vh::fmt("destroyed=%d/%d", g_all_destroyed.load(), g_constructed.load()).c_str());
 }
 
 int main(int argc, char** argv) {
     std::vector<vx::Scenario> scs;
-    const std::string S = "ABCDEF";
+    const std::string S = "ABCDEFG";
     auto add = [&](const std::string& scripts) {
         bool common = scripts.find('F') != std::string::npos;
         for (int late = 0; late <= 1; ++late) {
